@@ -234,10 +234,14 @@ def run_direct(rng, n, fns, known_filter=None, gen_kw=None, res=None):
         case = direct.gen_real_case(rng, cid, **gen_kw)
         # every other case runs with validation switched off (the property does not depend on the flag)
         case['skip_validation'] = bool(cid % 2 == 1)
+        if cid < len(direct.CHAIN_POOL) and case['chain'] is direct.CHAIN_POOL[cid] and (cid // 4) % 2 == 0:
+            case['skip_validation'] = False      # most of the fixed pool runs the default way, with validation
         # a chain of one stage is, every other time, that stage used directly instead of inside a KoopmanPipeline
         case['bare'] = bool(len(case['chain']) == 1 and case['chain'][0][0] != 'pipe' and (cid // 2) % 2 == 0)
         # the number of inputs as given by a caller who got it from numpy
         case['n_inputs_form'] = ['int', 'int', 'np.int64', '0-d array'][cid % 4]
+        # ... and the episode flag as a numpy bool or an integer (the result of an `.any()`, a 0 / 1 from a config file)
+        case['episode_flag_form'] = ['bool', 'np.bool_', 'bool', 'int', 'bool'][cid % 5]
         common.note_case('direct', repr(case['chain']), np.ascontiguousarray(case['X'], dtype=float), case['nu'], case['ep'])
         # inputs the estimators themselves reject at fit / plain transform time are not
         # in the property's domain: skipped and counted
@@ -262,7 +266,12 @@ def run_direct(rng, n, fns, known_filter=None, gen_kw=None, res=None):
             known['_skipped_fit_slower_than_%ds' % CASE_SECONDS] = known.get('_skipped_fit_slower_than_%ds' % CASE_SECONDS, 0) + 1
             print('slow generated case dropped:', case['chain'], case['ns'], case['nu'], file=sys.stderr)
             continue
-        except Exception:  # noqa
+        except Exception as e:  # noqa
+            if cid < len(direct.CHAIN_POOL) and case['chain'] is direct.CHAIN_POOL[cid]:
+                # the fixed pool is valid input by construction (usable episodes, non-degenerate data): a refusal is a failure
+                bad.append(direct.desc(case, test=fns[0][0], what=f'a pipeline of the fixed pool was refused at fit / transform: '
+                                                                            f'{type(e).__name__}: {e}'[:400]))
+                continue
             skipped += 1
             continue
         for name, fn in fns:
@@ -317,6 +326,7 @@ def replay_direct(path, extra_tests=None):
     chain = ast.literal_eval(c['chain'])
     X = dp.present(np.array(c['X'], dtype=float), c.get('array_presentation', 'float'))
     case = dict(bare=bool(c.get('used_directly', False)), n_inputs_form=c.get('n_inputs_given_as', 'int'),
+                episode_flag_form=c.get('episode_feature_given_as', 'bool'),
                 cid=int(c.get('cid', 0)) if c.get('refitted_after_other_layout') else 0, chain=chain, ns=c['n_states'], nu=c['n_inputs'], ep=c['episode_feature'], X=X, Xfit=X,
                 mode=c.get('layout'), w=c.get('min_samples'), dims=None)
     if c.get('fit_on_zero_inputs'):
